@@ -3,6 +3,7 @@ package props
 import (
 	"go/constant"
 	"sort"
+	"strconv"
 
 	"golang.org/x/tools/go/ssa"
 
@@ -66,3 +67,75 @@ func hex4(s string) string {
 	r := []rune(s)[0]
 	return string([]byte{digits[(r>>12)&15], digits[(r>>8)&15], digits[(r>>4)&15], digits[r&15]})
 }
+
+// c05HexEscapes (R15): the selector parser, like the CSS tokenizer, swallows one white space after a hexadecimal
+// escape whatever its length; every replacement string of the selector serializer that spells such an escape
+// (backslash, hexadecimal digits) therefore ends with exactly one space, or a space that follows in the value is lost
+// when the selector is read back.
+func c05HexEscapes(c *core.Check) {
+	p := c.Prog
+	r := c.Rule("R15", "hexadecimal escapes written by the selector serializer are terminated: every constant handed to strings.NewReplacer in css/selector that is a backslash followed by hexadecimal digits ends with one space", 3)
+	n := 0
+	var fns []*ssa.Function
+	for fn := range p.AllFuncs { // the package initialiser (package-level variables) is a synthetic function
+		if fn.Pkg != nil && core.Rel(fn.Pkg.Pkg.Path()) == "css/selector" && fn.Blocks != nil {
+			fns = append(fns, fn)
+		}
+	}
+	sort.Slice(fns, func(i, j int) bool { return fns[i].String() < fns[j].String() })
+	for _, fn := range fns {
+		core.Instrs(fn, func(in ssa.Instruction) {
+			call, ok := in.(*ssa.Call)
+			if !ok {
+				return
+			}
+			callee := call.Call.StaticCallee()
+			if callee == nil || callee.Pkg == nil || callee.Pkg.Pkg.Path() != "strings" || callee.Name() != "NewReplacer" || len(call.Call.Args) != 1 {
+				return
+			}
+			sl, ok := call.Call.Args[0].(*ssa.Slice)
+			if !ok {
+				return
+			}
+			al, ok := sl.X.(*ssa.Alloc)
+			if !ok {
+				return
+			}
+			for _, ref := range *al.Referrers() {
+				ia, ok := ref.(*ssa.IndexAddr)
+				if !ok {
+					continue
+				}
+				for _, r2 := range *ia.Referrers() {
+					st, ok := r2.(*ssa.Store)
+					if !ok {
+						continue
+					}
+					s, ok := core.ConstStr(st.Val)
+					if !ok || len(s) < 2 || s[0] != '\\' {
+						continue
+					}
+					hex := 0
+					for 1+hex < len(s) && isHexDigit(s[1+hex]) {
+						hex++
+					}
+					if hex == 0 {
+						continue
+					}
+					n++
+					rest := s[1+hex:]
+					r.Cond(rest == " ", core.FuncName(fn)+" | escape "+strconvQuote(s), p.Pos(st.Pos()), "ends with its terminating space", "the escape is written without its terminating space: the parser swallows the space, tab or newline that follows it in the value (`[title=\"first\\a  second\"]` reads back as first, newline, second)")
+				}
+			}
+		})
+	}
+	if n == 0 {
+		r.Unknown("css/selector | escapes of the string replacer", "-", "no hexadecimal escape constant handed to strings.NewReplacer")
+	}
+}
+
+func isHexDigit(b byte) bool {
+	return b >= '0' && b <= '9' || b >= 'a' && b <= 'f' || b >= 'A' && b <= 'F'
+}
+
+func strconvQuote(s string) string { return strconv.Quote(s) }
